@@ -122,4 +122,18 @@ META = {
         "note": _common_note + "unicode-segmentation itself is not modelled (its output is an input of the model).",
         "technique": "Lean 4 proof: pointwise characterisation of each mirrored loop by induction; idempotence from the pointwise form; differential correspondence",
     },
+    "C14": {
+        "text": "Lean theorems on two layers of the serialised predictor. Value level: a WeightVector survives the wire (trim_end_zeros, "
+                "then From<Vec<i32>> re-pads) unchanged (C14_weightvector); every predictor built by Predictor::new — plain, cached and "
+                "tagged scorers, every build configuration — is a fixed point of serialise->deserialise (C14_roundtrip, by showing every "
+                "weight vector inside it is canonical), hence identical scores, boundaries, tags and tag scores on every sentence "
+                "(C14_same_behaviour). Byte level: the outer PredictorData record (Option<bytes> scorers, bias, Option<map> tag "
+                "predictors, n_tags) decodes from `bytes ++ rest` to itself and exactly `rest`, for arbitrary scorer blobs "
+                "(C14_remainder). Tied to /repo by predictor pairs (original vs round trip, with trailing bytes) observed on texts, and "
+                "by decoding/re-encoding the outer record of the real serialised bytes with the Lean codec.",
+        "design_ref": "DESIGN.md §6 C14",
+        "note": _common_note + "The automaton blob and the hash-map iteration order are opaque (daachorse / hashbrown contracts); the two layers are "
+                "connected only through the correspondence run, not by a theorem.",
+        "technique": "Lean 4 proof: canonical-weight-vector invariant through Predictor::new; strict-decoder framing of the envelope; differential correspondence",
+    },
 }
